@@ -26,6 +26,8 @@ CHECKS = {
          "1..32 routes (callbacks with drop guards, new crossbeam receivers, bounded caller-supplied crossbeam senders with slow consumers) registered from 1..8 threads with 0..50 messages queued before registration; oracle: each handler sees exactly its messages in order, nothing else, is dropped exactly once, only after its channel is really disconnected, and has been dropped at quiescence. Sampling, not proof.", "5/C07"),
  "C17": ("exploration", "deterministic simulation: seeded schedules of shutdown()/proxy drop racing add_route, traffic and the router thread; quiescence oracle (thread exited, guards fired, nobody blocked, no panic)",
          "Routers with 0..16 live routes and traffic in flight are stopped by shutdown() from 1..4 threads racing add_route from others, or by dropping the proxy, followed by further sends and add_route calls; oracle: no callback after shutdown returned, every callback registered before the call dropped by then, all handlers dropped and the router thread gone at quiescence, late routes never invoked, no panic, no deadlock. Sampling, not proof.", "5/C17"),
+ "C14": ("exploration", "deterministic simulation: seeded programs of failing/nested/OS-rejected sends on one live thread with observer threads; quiescence oracle + nonce probes of every attachment",
+         "Programs of sends whose Serialize fails after k items, sends from inside Serialize impls (depth <=3, failing or not, propagated or not), sends to a dead channel and a receive inside Deserialize, followed by plain traffic; the sending thread stays alive; oracle: channels of endpoints embedded in failed values disconnect (observers not blocked at quiescence, probes to embedded receivers fail), every delivered message has exactly its own attachments at their positions (nonce probes). Sampling, not proof.", "5/C14"),
 }
 PENDING = "check not built yet (work in progress in this session; will be claimed once its simulation scenario exists)"
 
